@@ -514,8 +514,9 @@ def bmat(rows):
                 sel.methods['any'] = lambda I2, s_, axis=None: (bvec([z3.Or(*[z3.And(w, r[j]) for w, r in zip(a.fields['items'], rows_)]) for j in range(ncol)])
                                                                if axis == 0 else _unsupported("any(axis=%r) of selected rows" % (axis,)))
                 return sel
-            if rev(a) and rev(b):
-                return bmat([list(reversed(r)) for r in reversed(rows_)])
+            if (rev(a) or whole(a)) and (rev(b) or whole(b)):
+                rs = list(reversed(rows_)) if rev(a) else list(rows_)
+                return bmat([list(reversed(r)) if rev(b) else list(r) for r in rs])
         raise Unsupported("boolean matrix indexed by %r" % (idx,))
     m.methods['__getitem__'] = getitem
     return m
@@ -639,3 +640,150 @@ class ConnectedAxes(FnContract):
 
 
 CONTRACTS.append(ConnectedAxes())
+
+
+# =================================================================================================
+def _members(o, n):
+    m = list(o.fields['member'])
+    return m + [z3.BoolVal(False)] * (n - len(m))
+
+
+def _idx(cls, member, **kw):
+    o = PObj(cls, fields=dict(member=list(member), **kw))
+    if cls == 'index-set':
+        def union(I, a, b):
+            if not (isinstance(b, PObj) and b.cls == 'index-set'):
+                raise Unsupported("set | %r" % (b,))
+            n = max(len(a.fields['member']), len(b.fields['member']))
+            return _idx('index-set', [z3.Or(x, y) for x, y in zip(_members(a, n), _members(b, n))])
+        o.methods['__or__'] = union
+    return o
+
+
+class DependentAxes(FnContract):
+    """dependent_axes(wcs, axis): the matrix is turned into numpy order on both sides, the search starts from the pixel axis AND the world
+    axis with that index (when they exist), and the answer is the increasing tuple of every axis marked on either side.  _connected_axes is
+    used through its contract (ConnectedAxes): the marks it returns are the least closed pair for the matrix and the axes it was given."""
+    property_ids = ('C15',)
+    target = CH + ":dependent_axes"
+    title = ("for a coordinate object with a correlation matrix the result is the increasing tuple of the axes (numpy order) connected to the pixel axis or the world axis "
+             "with the given index: the matrix is reversed on both sides, both axes are starting points, marks of both sides are united; legacy coordinates answer (axis,)")
+
+    def configs(self, tier):
+        out = [dict(nw=1, np=1, axis=0, legacy=True), dict(nw=3, np=3, axis=2, legacy=True)]
+        mx = 4 if tier == 'thorough' else 3
+        for nw in range(1, mx + 1):
+            for npx in range(1, mx + 1):
+                for a in range(max(nw, npx)):
+                    out.append(dict(nw=nw, np=npx, axis=a, legacy=False))
+        return out
+
+    def inputs(self, cfg, P):
+        nw, npx = cfg['nw'], cfg['np']
+        rows = [[z3.Bool('m_%d_%d' % (i, j)) for j in range(npx)] for i in range(nw)]          # coordinate order, as the coordinate object gives it
+        wcs = PObj('LegacyCoordinates' if cfg['legacy'] else 'coords')
+        wcs.fields['axis_correlation_matrix'] = bmat(rows)
+        st = St(rows=rows, nw=nw, np=npx, axis=cfg['axis'], calls=[])
+        return Inputs([wcs, cfg['axis']], st=st)
+
+    def globals_(self, cfg, st):
+        def connected(I, matrix, pixel=(), world=()):
+            pix = pixel.items if isinstance(pixel, PList) else list(pixel)
+            wor = world.items if isinstance(world, PList) else list(world)
+            if not (isinstance(matrix, PObj) and matrix.cls == 'boolmat'):
+                raise Unsupported("_connected_axes(%r)" % (matrix,))
+            mrows = matrix.fields['rows']
+            nw_, np_ = matrix.fields['shape']
+            Pd = [I.path.fresh('pixel_marked%d' % j, z3.BoolSort()) for j in range(np_)]
+            Wd = [I.path.fresh('world_marked%d' % i, z3.BoolSort()) for i in range(nw_)]
+            # postcondition of ConnectedAxes (the 'least' clause is about every closed superset and is not needed by this caller)
+            I.path.assume(z3.And(closed(mrows, Pd, Wd), *([Pd[j] for j in pix] + [Wd[i] for i in wor])))
+            st.calls.append((mrows, pix, wor, Pd, Wd))
+            return (bvec(Pd), bvec(Wd))
+
+        def nonzero(I, v):
+            if not (isinstance(v, PObj) and v.cls == 'boolvec'):
+                raise Unsupported("np.nonzero(%r)" % (v,))
+            return (_idx('index-array', v.fields['items'], increasing=True),)
+
+        def set_(I, v=()):
+            if isinstance(v, PObj) and v.cls in ('index-array', 'index-set'):
+                return _idx('index-set', v.fields['member'])
+            from pyvc.builtins import b_set
+            return b_set(I, v)
+
+        def sorted_(I, v):
+            if isinstance(v, PObj) and v.cls in ('index-array', 'index-set'):
+                return _idx('index-list', v.fields['member'], increasing=True)
+            raise Unsupported("sorted(%r)" % (v,))
+
+        def tuple_(I, v=()):
+            if isinstance(v, PObj) and v.cls in ('index-array', 'index-list'):
+                return _idx('index-tuple', v.fields['member'], increasing=bool(v.fields.get('increasing')))
+            if isinstance(v, PObj) and v.cls == 'index-set':
+                # CPython iterates a set of small non-negative integers (below the table size 8, no deletions) in increasing order: a body
+                # that omits sorted() still satisfies the property here, so it must not raise an alarm
+                return _idx('index-tuple', v.fields['member'], increasing=len(v.fields['member']) <= 8)
+            from pyvc.builtins import BUILTINS
+            return I.call(BUILTINS['tuple'], [v], {})
+        return {'_connected_axes': Builtin('_connected_axes', connected), 'numpy.nonzero': Builtin('np.nonzero', nonzero), 'set': Builtin('set', set_),
+                'sorted': Builtin('sorted', sorted_), 'tuple': Builtin('tuple', tuple_), 'LegacyCoordinates': PType('LegacyCoordinates')}
+
+    def ensures(self, cfg, st, result):
+        a = st.axis
+        if cfg['legacy']:
+            return [('legacy-coordinates:only-the-axis-itself', isinstance(result, tuple) and len(result) == 1 and result[0] == a),
+                    ('no-search', len(st.calls) == 0)]
+        if len(st.calls) != 1:
+            return [('connected-axes-searched-once', False)]
+        mrows, pix, wor, Pd, Wd = st.calls[0]
+        nw, npx = st.nw, st.np
+        want = [[st.rows[nw - 1 - i][npx - 1 - j] for j in range(npx)] for i in range(nw)]
+        same = len(mrows) == nw and all(len(r) == npx for r in mrows) and all(z3.eq(mrows[i][j], want[i][j]) for i in range(nw) for j in range(npx))
+        out = [('matrix-in-numpy-order-on-both-sides', same),
+               ('starts-from-the-pixel-axis-when-there-is-one', pix == ([a] if a < npx else [])),
+               ('starts-from-the-world-axis-when-there-is-one', wor == ([a] if a < nw else []))]
+        ok = isinstance(result, PObj) and result.cls == 'index-tuple'
+        out.append(('returns-a-tuple-of-axes', ok))
+        if ok:
+            n = max(nw, npx)
+            mem = _members(result, n)
+            P_, W_ = Pd + [z3.BoolVal(False)] * (n - npx), Wd + [z3.BoolVal(False)] * (n - nw)
+            out.append(('increasing-order', bool(result.fields.get('increasing'))))
+            out.append(('no-axis-beyond-the-matrix', len(result.fields['member']) <= n))
+            out.append(('exactly-the-axes-marked-on-either-side', z3.And(*[mem[k] == z3.Or(P_[k], W_[k]) for k in range(n)])))
+        return out
+
+    def _native_args(self, cfg, val):
+        import numpy as np
+        nw, npx = cfg['nw'], cfg['np']
+        return np.array([[bool(val.get('m_%d_%d' % (i, j), False)) for j in range(npx)] for i in range(nw)], dtype=bool).reshape(nw, npx)
+
+    def native(self, cfg, val):
+        import numpy as np
+        from glue.core.coordinate_helpers import dependent_axes
+        if cfg['legacy']:
+            return None
+        m = self._native_args(cfg, val)
+
+        class C:
+            axis_correlation_matrix = m
+        nw, npx = m.shape
+        a = cfg['axis']
+        r = m[::-1, ::-1]
+        P, W = ({a} if a < npx else set()), ({a} if a < nw else set())
+        while True:
+            W2 = W | {i for i in range(nw) for j in P if r[i, j]}
+            P2 = P | {j for j in range(npx) for i in W2 if r[i, j]}
+            if (P2, W2) == (P, W):
+                break
+            P, W = P2, W2
+        exp = tuple(sorted(P | W))
+        got = tuple(int(x) for x in dependent_axes(C(), a))
+        return (got == exp, "%s = %r; the axes connected to axis %d are %r" % (self.native_call(cfg, val), got, a, exp))
+
+    def native_call(self, cfg, val):
+        return "dependent_axes(coords with axis_correlation_matrix=%r, %d)" % (self._native_args(cfg, val).astype(int).tolist(), cfg['axis'])
+
+
+CONTRACTS.append(DependentAxes())
